@@ -605,25 +605,39 @@ theorem nan_unary (L : Libm) (a : F64) (h : a.isNaN = true) :
     cases truthy b <;> decide +kernel
   · intro b; rw [bin_oror, truthy_nan h]; rfl
 
-/-- **A decimal literal is `strconv.ParseFloat` of its text** (the modelled, correctly rounding one of
-    `Rare/Base/F64Str.lean`): a token that is not boxed, has no underscore and is not an integer for
-    `ParseInt(s, 0, 64)` denotes the constant `ParseFloat(s, 64)` whenever that succeeds. -/
-theorem literal_value_float (L : Libm) (v : Bytes) (x : F64) (hbx : isBoxed v = false)
-    (hu : v.contains 95 = false) (hi : parseIntLit v = none) (hp : F64.parseFloat v = some x) :
-    classify (arith L) v = some (.num x) := by
-  have hpl : (arith L).parseFloat v = .val x := by
-    show parseLit v = _
-    unfold parseLit; rw [hp]
-  cases v with
-  | nil => simp [F64.parseFloat, F64.special] at hp
-  | cons c r =>
-    simp only [classify, classifyE, hbx, Bool.false_eq_true, if_false, parseNum, hu, Bool.and_false, hi, hpl]
+/-- **A numeric literal is `ParseInt`, else `ParseFloat`, of its text**, as in `compileToken`: a token
+    that is not boxed denotes `float64(ParseInt(s, 0, 64))` when that succeeds (decimal, `0x`, `0b`, `0o`,
+    leading-zero octal, underscores as Go allows them), and otherwise `strconv.ParseFloat(s, 64)` (the
+    modelled, correctly rounding one of `Rare/Base/F64Str.lean`: decimals, exponents, hexadecimal
+    floats, `inf`, `nan`) when that succeeds; otherwise it is a variable name or an error. -/
+theorem literal_value_float (L : Libm) (v : Bytes) (hbx : isBoxed v = false) :
+    (∀ k, parseIntU v = some k → classify (arith L) v = some (.num (ofInt k))) ∧
+    (∀ x, parseIntU v = none → F64.parseFloat v = some x → classify (arith L) v = some (.num x)) := by
+  constructor
+  · intro k hi
+    cases v with
+    | nil => simp [parseIntU, parseIntLit] at hi
+    | cons c r =>
+      simp only [classify, classifyE, hbx, Bool.false_eq_true, if_false, parseNum, hi]
+      rfl
+  · intro x hi hp
+    have hpl : (arith L).parseFloat v = .val x := by
+      show parseLit v = _
+      unfold parseLit; rw [hp]
+    cases v with
+    | nil => simp [F64.parseFloat, F64.special] at hp
+    | cons c r => simp only [classify, classifyE, hbx, Bool.false_eq_true, if_false, parseNum, hi, hpl]
 
-/-- `0.1` is 0x3FB999999999999A, `1e22` is exact, `9007199254740993` is read by `ParseInt` (not by this
-    theorem) and rounds to even when converted. -/
-example : isBoxed (ascii "0.1") = false ∧ (ascii "0.1").contains 95 = false ∧ parseIntLit (ascii "0.1") = none ∧
+/-- `0.1` is 0x3FB999999999999A, `1e22` is exact, `1_000` and `0x_ff` are integers, `1_0.5` is 10.5,
+    `0x1p4` is 16, `1__0` is nothing; `9007199254740993` is read by `ParseInt` and rounds to even when
+    converted. -/
+example : isBoxed (ascii "0.1") = false ∧ parseIntU (ascii "0.1") = none ∧
     F64.parseFloat (ascii "0.1") = some (ofBits 0x3FB999999999999A) ∧
     F64.parseFloat (ascii "1e22") = some (ofBits 0x4480F0CF064DD592) ∧
+    parseIntU (ascii "1_000") = some 1000 ∧ parseIntU (ascii "0x_ff") = some 255 ∧ parseIntU (ascii "0_10") = some 8 ∧
+    parseIntU (ascii "1__0") = none ∧ parseIntU (ascii "1_") = none ∧ parseIntU (ascii "0_x1") = none ∧
+    evalF64 (ascii "1_0.5") 0 = some 0x4025000000000000 ∧ evalF64 (ascii "0x1p4") 0 = some 0x4030000000000000 ∧
+    evalF64 (ascii "1__0") 0 = none ∧
     evalF64 (ascii "9007199254740993") 0 = some 0x4340000000000000 := by decide +kernel
 
 /-- **What the driver computes is what the theorems talk about.**  The driver evaluates with the tainted
